@@ -38,13 +38,27 @@ class AttrView(Model):
     def __len__(self):
         return len(self._g._node)
 
-    def __call__(self, data=False):
-        if data:
+    def __call__(self, data=False, default=None):
+        if data is True:
             return [(n, self._g._node[n]) for n in self._g._node]
+        if data:
+            return [(n, self._g._node[n].get(data, default)) for n in self._g._node]
         return list(self._g._node)
 
-    def data(self, key=None):
-        return [(n, self._g._node[n] if key is None else self._g._node[n].get(key)) for n in self._g._node]
+    def data(self, key=None, default=None):
+        return [(n, self._g._node[n] if key is None or key is True else self._g._node[n].get(key, default)) for n in self._g._node]
+
+    def items(self):
+        return [(n, self._g._node[n]) for n in self._g._node]
+
+    def keys(self):
+        return list(self._g._node)
+
+    def values(self):
+        return [self._g._node[n] for n in self._g._node]
+
+    def get(self, n, default=None):
+        return self._g._node.get(n, default)
 
 
 class EdgeView(Model):
